@@ -32,11 +32,16 @@ func newCompiler(src []sourceLine, metadata WarriorData, config SimulatorConfig)
 }
 
 func (c *compiler) loadConstants() {
-	c.values["CORESIZE"] = []token{{tokNumber, fmt.Sprintf("%d", c.config.CoreSize)}}
-	c.values["MAXLENGTH"] = []token{{tokNumber, fmt.Sprintf("%d", c.config.Length)}}
-	c.values["MAXPROCESSES"] = []token{{tokNumber, fmt.Sprintf("%d", c.config.Processes)}}
-	c.values["MINDISTANCE"] = []token{{tokNumber, fmt.Sprintf("%d", c.config.Distance)}}
-	// c.values["CURLINE"] = []token{{tokNumber, "0"}}
+	loadConstants(c.values, c.config)
+}
+
+// loadConstants defines the predefined names of the configuration in values
+func loadConstants(values map[string][]token, config SimulatorConfig) {
+	values["CORESIZE"] = []token{{tokNumber, fmt.Sprintf("%d", config.CoreSize)}}
+	values["MAXLENGTH"] = []token{{tokNumber, fmt.Sprintf("%d", config.Length)}}
+	values["MAXPROCESSES"] = []token{{tokNumber, fmt.Sprintf("%d", config.Processes)}}
+	values["MINDISTANCE"] = []token{{tokNumber, fmt.Sprintf("%d", config.Distance)}}
+	// values["CURLINE"] = []token{{tokNumber, "0"}}
 }
 
 // load symbol []token values into value map and code line numbers of
@@ -341,6 +346,8 @@ func CompileWarrior(r io.Reader, config SimulatorConfig) (WarriorData, error) {
 			return WarriorData{}, fmt.Errorf("symbol scanner: %s", err)
 		}
 		if forSeen {
+			// FOR counts may use the predefined names as well
+			loadConstants(symbols, config)
 			expandedTokens, err := ForExpand(newBufTokenReader(tokens), symbols)
 			if err != nil {
 				return WarriorData{}, fmt.Errorf("for: %s", err)
